@@ -130,6 +130,8 @@ async fn long_session(n: usize, retries: u8) -> (u64, u64, Vec<mc::Violation>, s
 
 pub fn c20_worlds() -> Vec<(String, HCfg)> {
     vec![
+        // an answer that fills its datagram to exactly 1280 bytes
+        ("talk-max".to_string(), HCfg { nodes: 2, workload: vec![req(0, 1, Body::TalkMax, true), req(0, 1, Body::TalkMax, true)], allow_dup: false, allow_reorder: false, allow_drop: false, allow_early_timer: false, ..Default::default() }),
         // an answer of 40 packets handed over in one go (more than the queue to the send task holds)
         ("find40".to_string(), HCfg { nodes: 2, workload: vec![req(0, 1, Body::Find(40), true)], allow_dup: false, allow_reorder: false, allow_drop: false, allow_early_timer: false, ..Default::default() }),
         ("held-talk".to_string(), HCfg { nodes: 2, workload: vec![req(0, 1, Body::Talk, true), req(1, 0, Body::Ping, true)], allow_dup: false, allow_reorder: false, ..Default::default() }),
